@@ -232,6 +232,8 @@ def consume(etl, view, how, k):
     try:
         if how == 'islice':
             out = list(islice(iter(view), k + 1))
+        elif how == 'islice-twice':
+            out = [list(islice(iter(view), k + 1)), list(islice(iter(view), k + 1))]     # two partial passes over the same view object
         elif how == 'head':
             out = list(islice(iter(etl.head(view, k)), k + 5))
         elif how == 'look':
@@ -250,7 +252,7 @@ def consume(etl, view, how, k):
 
 
 # constants a consumer adds on top of the operator's own lookahead (look/see/repr read one row more to detect overflow)
-CONSUMER_C = {'islice': 0, 'head': 0, 'look': 1, 'lookstr': 1, 'see': 1, 'repr': 1}
+CONSUMER_C = {'islice': 0, 'islice-twice': 0, 'head': 0, 'look': 1, 'lookstr': 1, 'see': 1, 'repr': 1}
 
 
 class CountingBytesIO(io.BytesIO):
@@ -330,7 +332,7 @@ def run(ctx):
     ops = catalog(etl)
     N1, N2 = 100, 10000
     ks = list(range(0, 9))
-    hows = ['islice', 'head', 'look', 'lookstr', 'see', 'repr']
+    hows = ['islice', 'head', 'look', 'lookstr', 'see', 'repr', 'islice-twice']
 
     def measure(build, n, seed, ragged, how, k, cls=None):
         s = (cls or Src)(n, seed, ragged)
@@ -378,6 +380,11 @@ def run(ctx):
         CC = C + CONSUMER_C[how]
         if how == 'repr':
             k = 5
+        if how == 'islice-twice':
+            if kind == 'one2one' and p2 > 2 * (k + CC):
+                ctx.spec_fail('%s|%s|more-than-2(k+C)' % (name, how), '%s: two partial passes of k=%d rows pulled %d rows (allowed %d)' % (name, k, p2, 2 * (k + CC)),
+                              dict(case, pulls=p2))
+            return
         if kind == 'one2one' and p2 > k + CC:
             ctx.spec_fail('%s|%s|more-than-k+C' % (name, how), '%s via %s: %d rows pulled for k=%d (allowed k+%d)' % (name, how, p2, k, CC),
                           dict(case, pulls=p2))
@@ -443,7 +450,9 @@ def run(ctx):
 
     # multi-source operators: the later sources are not read while the first still delivers
     for name, mk in [('cat', lambda a, b: etl.cat(a, b)), ('stack', lambda a, b: etl.stack(a, b)),
-                     ('annex', lambda a, b: etl.annex(a, b)), ('hashjoin-probe', lambda a, b: etl.hashleftjoin(a, etl.head(b, 30), key='a'))]:
+                     ('annex', lambda a, b: etl.annex(a, b)), ('hashjoin-probe', lambda a, b: etl.hashleftjoin(a, etl.head(b, 30), key='a')),
+                     ('addcolumn-lazy', lambda a, b: etl.addcolumn(a, 'z', etl.values(b, 'a'))),
+                     ('addcolumn-view', lambda a, b: etl.addcolumn(a, 'z', etl.data(b)))]:
         for k in ks:
             res = []
             for n in (N1, N2):
@@ -461,7 +470,8 @@ def run(ctx):
             elif (a1, b1) != (a2, b2) or o1 != o2:
                 ctx.spec_fail('%s|pulls-depend-on-length' % name, '%s: pulls (%d,%d) vs (%d,%d) for k=%d' % (name, a1, b1, a2, b2, k), case)
             else:
-                lim = {'cat': (k, 0), 'stack': (k, 0), 'annex': (k, k), 'hashjoin-probe': (k, 30), 'crossjoin': (k + 1, 3)}[name]
+                lim = {'cat': (k, 0), 'stack': (k, 0), 'annex': (k, k), 'hashjoin-probe': (k, 30), 'crossjoin': (k + 1, 3),
+                       'addcolumn-lazy': (k, k), 'addcolumn-view': (k, k)}[name]
                 if a2 > lim[0] or b2 > lim[1]:
                     ctx.spec_fail('%s|more-than-needed' % name, '%s: pulled (%d,%d) rows for k=%d, allowed %r' % (name, a2, b2, k, lim), case)
 
